@@ -1138,7 +1138,7 @@ func main() {
 		ID:    "C09",
 		Level: "exploration",
 		Race:  true,
-		Rule:  "2…32 goroutines on one memfs (GOMAXPROCS 1/2/4/16, yields/sleeps injected at the three memfs verif hook points): W1 writers to distinct files in shared directories + listers (unique names, no phantom, every successful write present at quiescence); W2/W5 writers/readers/removers (whole-file and always-closed stream handles) on 1–3 shared files with unique checksummed values – every value read is complete and was written, and the recorded per-file history is checked with porcupine against a register-with-existence model; W3 N concurrent creations of the same new node (WriteFile, MkdirAll, Copy to one destination, MkdirAll vs WriteFile below it) give one node; W6 directory copies (Copy/CopyDirectory) racing with MkdirAll/Remove of empty sub-directories, RemoveAll of the copies and listers (copies complete, completion or deadlock diagnosis); W7 refusals a directory has to give (stream writer / write / reader on a directory name, mkdir below a file, remove of a non-empty directory, file copy of a directory) followed by WriteFile and stream writes of distinct files in the same directory (all return and are visible); W4 short mixed histories on a 6-node tree – whole-tree porcupine model (observational) plus the spelled-out clauses (an undisturbed successful mutation is visible at quiescence, names once, values whole). Process-fatal errors, panics, a deadlock diagnosis from two goroutine dumps and race reports in memfs/* decide. distinct = (workload, goroutines, seed index)",
+		Rule:  "2…32 goroutines on one memfs (GOMAXPROCS 1/2/4/16, yields/sleeps injected at the three memfs verif hook points): W1 writers to distinct files in shared directories + listers (unique names, no phantom, every successful write present at quiescence); W2/W5 writers/readers/removers (whole-file and always-closed stream handles) on 1–3 shared files with unique checksummed values – every value read is complete and was written, and the recorded per-file history is checked with porcupine against a register-with-existence model; W3 N concurrent creations of the same new node (WriteFile, MkdirAll, Copy to one destination, MkdirAll vs WriteFile below it) give one node; W6 directory copies (Copy/CopyDirectory) racing with MkdirAll/Remove of empty sub-directories, RemoveAll of the copies and listers (copies complete, completion or deadlock diagnosis); W7 refusals a directory has to give (stream writer / write / reader on a directory name, mkdir below a file, remove of a non-empty directory, file copy of a directory) followed by WriteFile and stream writes of distinct files in the same directory (all return and are visible); W8 a copy that has to wait for a source held by a stream writer while the holder lists and writes the destination directory before closing, and copies of two trees below each other in opposite directions (completion or deadlock diagnosis, copies whole); W4 short mixed histories on a 6-node tree – whole-tree porcupine model (observational) plus the spelled-out clauses (an undisturbed successful mutation is visible at quiescence, names once, values whole). Process-fatal errors, panics, a deadlock diagnosis from two goroutine dumps and race reports in memfs/* decide. distinct = (workload, goroutines, seed index)",
 		Assumptions: []string{
 			"'not linearizable' for a mixed W4 history is an observation only; a violation needs a witness against a clause the statement spells out (operations on related paths – ancestor/descendant – are not 'distinct paths')",
 			"'blocks forever' is restated as: the workload completes, or two goroutine dumps one second apart show the same parked stacks inside memfs and no progress (violation); watchdog expiry without that diagnosis is inconclusive",
@@ -1172,7 +1172,11 @@ func main() {
 								g = 4
 							}
 							if idx%12 == 11 {
-								w7(r, rng, g)
+								if idx%24 == 23 {
+									w8(r, rng, g)
+								} else {
+									w7(r, rng, g)
+								}
 							} else {
 								w6(r, rng, g)
 							}
@@ -1205,7 +1209,7 @@ func main() {
 			}
 		},
 		Finish: func(t *sup.Totals) string {
-			for _, k := range []string{"w1_runs", "w2_runs", "w3_runs", "w4_runs", "w5_runs", "w6_runs", "w6_directory_copies", "w7_runs", "w7_refusals_followed_by_writes_in_the_same_directory", "porcupine_ok", "memfs_hook_hits", "w4_undisturbed_mutations_checked"} {
+			for _, k := range []string{"w1_runs", "w2_runs", "w3_runs", "w4_runs", "w5_runs", "w6_runs", "w6_directory_copies", "w7_runs", "w7_refusals_followed_by_writes_in_the_same_directory", "w8_busy_file_runs", "w8_crossing_runs", "porcupine_ok", "memfs_hook_hits", "w4_undisturbed_mutations_checked"} {
 				if t.Obs[k] == 0 {
 					return "monitor observed nothing for " + k
 				}
